@@ -1,4 +1,6 @@
 import GenjaxModel.Proofs.Resample
+import GenjaxModel.Proofs.ResampleIntegral
+import GenjaxModel.Proofs.ResampleCategorical
 import Mathlib.Tactic.NormNum
 /-!
 # C12 — resampling copies particles faithfully, preserves the estimate, and is unbiased
@@ -7,6 +9,11 @@ Model: `Model/Resample.lean` (linear-domain weights `w_i = exp(log_weights_i)`; 
 `exp(log_marginal_likelihood) = acc * mean w`). All statements are over an arbitrary linearly
 ordered field with floor (ℚ, ℝ, …), every weight vector with non-negative entries and positive sum,
 every particle count `n`, every offset `u ∈ (0,1)`.
+
+Unbiasedness (E[copies_i] = N·w_i) is proved for both methods at the end of the file:
+`C12_systematic_unbiased` (over ℝ, Lebesgue integral over the uniform offset, with the integration
+step `C12_integral_floor_sub` and integrability `C12_systematic_integrable` fully formalised) and
+`C12_categorical_unbiased` (finite expectation `FinDist.E` over N i.i.d. categorical draws, any field).
 -/
 namespace Genjax.Resample
 variable {K : Type} [Field K] [LinearOrder K] [IsStrictOrderedRing K] [FloorRing K]
@@ -35,9 +42,9 @@ theorem C12_floor_ceil (w : List K) (n : Nat) (u : K)
   systematic_floor_ceil w n u hw hs hu0 hu1 i hi
 
 /-- closed form of the copy count as a function of the offset: with c = N·C_i and d = N·w_i,
-    copies_i(u) = ⌊c − u⌋ − ⌊c − u − d⌋.  Since ∫₀¹ ⌊a − u⌋ du = a − 1 for every real a, the
-    expected number of copies over a uniform offset is d = N·w_i (the integration step is cited
-    mathematics, not formalised; the seeded run checks it statistically). -/
+    copies_i(u) = ⌊c − u⌋ − ⌊c − u − d⌋.  Since ∫₀¹ ⌊a − u⌋ du = a − 1 for every real a
+    (`C12_integral_floor_sub` below), the expected number of copies over a uniform offset is
+    d = N·w_i: this integration step is now formalised, see `C12_systematic_unbiased` below. -/
 theorem C12_count_formula (w : List K) (n : Nat) (u : K)
     (hw : ∀ x ∈ w, 0 ≤ x) (hs : 0 < sum w) (hu0 : 0 < u) (hu1 : u < 1)
     (i : Nat) (hi : i < w.length) :
@@ -70,4 +77,77 @@ example : (∀ x ∈ ([1, 2, 1] : List ℚ), 0 ≤ x) ∧ 0 < sum ([1, 2, 1] : L
   · intro x hx; simp at hx; rcases hx with rfl | rfl | rfl <;> norm_num
   · norm_num [sum]
 
+/-! ## Unbiasedness: E[copies_i] = N · w_i for both resampling methods -/
+
+/-- the integration step: ∫₀¹ ⌊a − u⌋ du = a − 1 for every real `a` (Lebesgue / interval integral) -/
+theorem C12_integral_floor_sub (a : ℝ) : ∫ u in (0:ℝ)..1, ((⌊a - u⌋ : ℤ) : ℝ) = a - 1 :=
+  integral_floor_sub a
+
+/-- the copy count of particle `i`, as a function of the offset `u`, is integrable on `[0,1]`
+    (proved, not assumed) — so the integral in `C12_systematic_unbiased` is a genuine expectation
+    and not the junk value `0` that Mathlib assigns to non-integrable functions. -/
+theorem C12_systematic_integrable (w : List ℝ) (n : ℕ) (hw : ∀ x ∈ w, 0 ≤ x) (hs : 0 < sum w)
+    (i : ℕ) (hi : i < w.length) :
+    IntervalIntegrable (fun u : ℝ => ((copies (systematic w n u) i : ℤ) : ℝ))
+      MeasureTheory.volume 0 1 :=
+  intervalIntegrable_copies w n hw hs i hi
+
+/-- **systematic resampling is unbiased**: for an offset `u` uniformly distributed on `[0,1]`
+    (`uniform.sample(0.0, 1.0)` in `systematic_resample`) the expected number of copies of particle
+    `i` is `N · w_i / Σ w`, for every non-negative weight vector with positive sum, every particle
+    count `n` and every valid index `i`.  The endpoints `u = 0, 1` (where `C12_count_formula` is not
+    claimed) have Lebesgue measure zero.  This closes the integration step that the docstring of
+    `C12_count_formula` used to cite. -/
+theorem C12_systematic_unbiased (w : List ℝ) (n : ℕ) (hw : ∀ x ∈ w, 0 ≤ x) (hs : 0 < sum w)
+    (i : ℕ) (hi : i < w.length) :
+    ∫ u in (0:ℝ)..1, ((copies (systematic w n u) i : ℤ) : ℝ) = (n : ℝ) * (w.getD i 0 / sum w) :=
+  systematic_unbiased w n hw hs i hi
+
+omit [LinearOrder K] [IsStrictOrderedRing K] [FloorRing K] in
+/-- the categorical ancestor distribution `multinomial w n` (n i.i.d. draws with
+    P(index = i) = w_i/Σw, `categorical.sample(log_weights, sample_shape=(n,))`) is normalised and
+    every outcome is a vector of `n` indices — so `E (multinomial w n) ·` is a true expectation. -/
+theorem C12_categorical_normalised (w : List K) (n : Nat) (hs : sum w ≠ 0) :
+    Smc.FinDist.mass (multinomial w n) = 1 ∧
+      ∀ idx ∈ Smc.supp (multinomial w n), idx.length = n :=
+  ⟨mass_multinomial w n hs, fun idx h => multinomial_length w n idx h⟩
+
+omit [LinearOrder K] [IsStrictOrderedRing K] [FloorRing K] in
+/-- **categorical (multinomial) resampling is unbiased**: E[copies_i] = N · w_i / Σ w, in the exact
+    finite-expectation vocabulary of `Model/Smc.lean`; any field, any weight vector with non-zero
+    total, any number of draws, any valid index. -/
+theorem C12_categorical_unbiased (w : List K) (n : Nat) (hs : sum w ≠ 0) (i : Nat)
+    (hi : i < w.length) :
+    Smc.FinDist.E (multinomial w n) (fun idx => ((copies idx i : Nat) : K)) =
+      (n : K) * (w.getD i 0 / sum w) :=
+  multinomial_unbiased w n hs i hi
+
+omit [LinearOrder K] [IsStrictOrderedRing K] [FloorRing K] in
+/-- the same for the resampling move `Smc.resampleStep` used in the C10 unbiasedness proofs
+    (`maybeResample_est`): the expected number of resampled particles equal to `x` is
+    N · (Σ_{j : x_j = x} w_j) / Σ w — i.e. N · w_i/Σw when particle values are pairwise distinct. -/
+theorem C12_resampleStep_unbiased {X : Type} [DecidableEq X] (s : Smc.Sys K X)
+    (ht : Smc.sumK (s.parts.map (·.2)) ≠ 0) (x : X) :
+    Smc.FinDist.E (Smc.resampleStep s)
+        (fun s' => Smc.sumK (s'.parts.map fun (yw : X × K) => if yw.1 = x then (1 : K) else 0))
+      = (s.parts.length : K) *
+        (Smc.sumK (s.parts.map fun (yw : X × K) => if yw.1 = x then yw.2 else 0) /
+          Smc.sumK (s.parts.map (·.2))) :=
+  resampleStep_unbiased s ht x
+
+/-- non-vacuity over ℝ: w = [1,2,1], n = 4, i = 1 meets every hypothesis of
+    `C12_systematic_unbiased`, and the expected number of copies of the middle particle is 2 -/
+example : ∫ u in (0:ℝ)..1, ((copies (systematic ([1, 2, 1] : List ℝ) 4 u) 1 : ℤ) : ℝ) = 2 := by
+  have h := C12_systematic_unbiased ([1, 2, 1] : List ℝ) 4
+    (by intro x hx; simp at hx; rcases hx with rfl | rfl | rfl <;> norm_num)
+    (by norm_num [sum]) 1 (by simp)
+  rw [h]; norm_num [sum]
+
+/-- non-vacuity for the categorical method (ℚ): w = [1,2,1], n = 4, i = 1 -/
+example : Smc.FinDist.E (multinomial ([1, 2, 1] : List ℚ) 4)
+    (fun idx => ((copies idx 1 : Nat) : ℚ)) = 2 := by
+  rw [C12_categorical_unbiased ([1, 2, 1] : List ℚ) 4 (by norm_num [sum]) 1 (by simp)]
+  norm_num [sum]
+
 end Genjax.Resample
+
